@@ -49,7 +49,8 @@ theorem C04_region_stack (b : Block) (σ : RS) (es : List Exec) (hR : Ready σ e
 #assert_axioms C04_region_stack
 
 /-- **(b) for whole documents.**  For every block `b` of supported content (arbitrarily nested
-if / elseif* / else? / foreach, raise, assign, log, script, cancel), reading
+if / elseif* / else? / foreach, raise, assign, log with expr, script, cancel; child text without
+`&` / `<`, see `C04_child_text_roundtrip` for escaped text), reading
 `<scxml><state id="s"><onentry>` followed by the SAX events of `b` succeeds and region 1 (the
 `<onentry>` block) decompiles — with the fuel `decompile` uses — to the normal form of `b`:
 `denote (readContent (saxOf b)) = normalise b`. -/
@@ -168,7 +169,37 @@ example : (match read ([.start t_scxml []] ++ saxSF [.node [97] (some [99]) [], 
     [[95, 95, 105, 100, 49, 0, 1, 0, 1, 2, 4], [97, 0, 2, 1, 2], [99, 0, 3, 4, 5], [98, 0, 4, 1, 4, 3]] := by
   decide +kernel
 
-/-! ## the unchanged reader violates the property: four counterexamples -/
+/-! ## child text, namespace prefix, start/end-pair form (repaired in round 2) -/
+
+/-- **Child text round trip.**  `read_content` resolves the character data of the source span
+(`resolve_character_data`): for EVERY text `t`, the span `xmlEscape t` (how `saxSrc` writes child
+text of `<script> <data> <content> <assign>`: `&` as `&amp;`, `<` as `&lt;`) is read back as `t`. -/
+theorem C04_child_text_roundtrip (t : Str) : resolveCharData (xmlEscape t) = some t :=
+  resolve_escape t
+#assert_axioms C04_child_text_roundtrip
+
+/-- text without references and markup is taken as it is -/
+theorem C04_child_text_plain (t : Str) (h : plainText t = true) : resolveCharData t = some t :=
+  resolve_plain t h
+#assert_axioms C04_child_text_plain
+
+/-- **Namespace prefix on a raw-text element.**  For every prefix `p` (without `:`), every script
+text without `&`/`<` and every reader state inside a content region: `<p:script>t</p:script>` is
+read exactly like `<script>t</script>` (`read_content` looks for the end tag with the qualified
+name of the start tag). -/
+theorem C04_ns_prefix_script (p t : Str) (hp : p.all (· != 58) = true) (hpl : plainText t = true)
+    (σ : RS) (es : List Exec) (hR : Ready σ es) :
+    run (addPrefix p (saxC (.script t))) σ = run (saxC (.script t)) σ :=
+  prefix_script p t hp hpl σ es hR
+#assert_axioms C04_ns_prefix_script
+
+/-- **Start/end-tag form of a childless `<assign>`.**  From every reader state inside a content
+region `<assign location="l" expr="e"></assign>` is read exactly like `<assign location="l" expr="e"/>`
+(with or without `expr`). -/
+theorem C04_pair_form_assign (l : Str) (e : Option Str) (σ : RS) (es : List Exec) (hR : Ready σ es) :
+    run (pairForm (saxC (.assign l e none))) σ = run (saxC (.assign l e none)) σ :=
+  pair_assign l e σ es hR
+#assert_axioms C04_pair_form_assign
 
 /-- `<scxml><state id="a"><onentry> c </onentry></state></scxml>` -/
 def docOnentry (c : Block) : Doc :=
@@ -183,24 +214,39 @@ def firstOnentry (d : Doc) : Option Block :=
 
 def blockTexts : Block → List Str
   | .script t :: r => t :: blockTexts r
+  | .assign _ (some e) _ :: r => e :: blockTexts r
   | _ :: r => [] :: blockTexts r
   | [] => []
 
-/-- `<script>x&lt;1</script>`: the logical text is `x<1`, the model holds the raw source span
-`x&lt;1` (finding `C04:raw-child-text`, DESIGN §5 P17) -/
-theorem C04_counterexample_raw_child_text : ¬ C04_full := by
-  intro h
-  have hw : wfDoc (docOnentry [.script [120, 60, 49]]) = true := by decide +kernel
-  have h1 := (h _ hw).1
-  have h2 : ((readDoc (saxSrc (docOnentry [.script [120, 60, 49]]))).bind firstOnentry).map blockTexts =
-      some [[120, 38, 108, 116, 59, 49]] := by decide +kernel
-  have h3 : ((some (normalise (docOnentry [.script [120, 60, 49]]))).bind firstOnentry).map blockTexts =
-      some [[120, 60, 49]] := by decide +kernel
-  rw [h1, h3] at h2
-  exact absurd h2 (by decide)
-#assert_axioms C04_counterexample_raw_child_text
+/-- regression (former finding `C04:raw-child-text`, DESIGN §5 P17): `<script>x&lt;1</script>` is
+read as the script `x<1`, the same as the normal form of the document -/
+theorem C04_regression_raw_child_text :
+    ((readDoc (saxSrc (docOnentry [.script [120, 60, 49]]))).bind firstOnentry).map blockTexts = some [[120, 60, 49]] ∧
+    ((some (normalise (docOnentry [.script [120, 60, 49]]))).bind firstOnentry).map blockTexts = some [[120, 60, 49]] := by
+  decide +kernel
+#assert_axioms C04_regression_raw_child_text
 
-/-- `<log label="l"/>` (no `expr`) is dropped by the reader (finding `C04:dropped:log-without-expr`) -/
+/-- regression (former finding `C04:ns-prefix:raw-text-element`): `<sc:script>x</sc:script>` (every
+element prefixed) is read, with the same block as the unprefixed document -/
+theorem C04_regression_ns_prefix :
+    ((readDoc (addPrefix [115, 99] (saxSrc (docOnentry [.script [120]])))).bind firstOnentry).map blockTexts = some [[120]] ∧
+    ((readDoc (saxSrc (docOnentry [.script [120]]))).bind firstOnentry).map blockTexts = some [[120]] := by
+  decide +kernel
+#assert_axioms C04_regression_ns_prefix
+
+/-- regression (former finding `C04:empty-pair-form`): `<assign location="x" expr="1"></assign>` is
+read like `<assign location="x" expr="1"/>` -/
+theorem C04_regression_empty_pair_form :
+    ((readDoc (pairForm (saxSrc (docOnentry [.assign [120] (some [49]) none])))).bind firstOnentry).map blockTexts =
+      some [[49]] ∧
+    ((readDoc (saxSrc (docOnentry [.assign [120] (some [49]) none]))).bind firstOnentry).map blockTexts = some [[49]] := by
+  decide +kernel
+#assert_axioms C04_regression_empty_pair_form
+
+/-! ## what is still missing for `C04_full`: one counterexample -/
+
+/-- `<log label="l"/>` (no `expr`) is dropped by the reader (finding `C04:dropped:log-without-expr`;
+its repair needs `Log::execute` in src/executable_content.rs to accept a missing expression) -/
 theorem C04_counterexample_log_without_expr : ¬ C04_full := by
   intro h
   have hw : wfDoc (docOnentry [.log [108] none, .log [] (some [49])]) = true := by decide +kernel
@@ -212,31 +258,6 @@ theorem C04_counterexample_log_without_expr : ¬ C04_full := by
   rw [h1, h3] at h2
   exact absurd h2 (by decide)
 #assert_axioms C04_counterexample_log_without_expr
-
-/-- `<sc:script>x</sc:script>`: `read_content` looks for `</script>` and never finds the end tag
-(finding `C04:ns-prefix:raw-text-element`) -/
-theorem C04_counterexample_ns_prefix : ¬ C04_full := by
-  intro h
-  have hw : wfDoc (docOnentry [.script [120]]) = true := by decide +kernel
-  have h1 := (h _ hw).2.1 [115, 99] (by decide) (by decide)
-  have h2 : (readDoc (addPrefix [115, 99] (saxSrc (docOnentry [.script [120]])))).isSome = false := by decide +kernel
-  have h3 : (readDoc (saxSrc (docOnentry [.script [120]]))).isSome = true := by decide +kernel
-  rw [h1, h3] at h2
-  exact absurd h2 (by decide)
-#assert_axioms C04_counterexample_ns_prefix
-
-/-- `<assign location="x" expr="1"></assign>` panics ("shall not have content") while
-`<assign location="x" expr="1"/>` is read (finding `C04:empty-pair-form`) -/
-theorem C04_counterexample_empty_pair_form : ¬ C04_full := by
-  intro h
-  have hw : wfDoc (docOnentry [.assign [120] (some [49]) none]) = true := by decide +kernel
-  have h1 := (h _ hw).2.2
-  have h2 : (readDoc (pairForm (saxSrc (docOnentry [.assign [120] (some [49]) none])))).isSome = false := by
-    decide +kernel
-  have h3 : (readDoc (saxSrc (docOnentry [.assign [120] (some [49]) none]))).isSome = true := by decide +kernel
-  rw [h1, h3] at h2
-  exact absurd h2 (by decide)
-#assert_axioms C04_counterexample_empty_pair_form
 
 /-- non-vacuity: a document with nested content satisfies `wfDoc` and round-trips (a test, by
 kernel evaluation) -/
